@@ -68,7 +68,7 @@ Dout(qb, qa) == IF Effect(qb, qa) \in {"red", "close"} THEN SAbs(qb) - SAbs(qa)
                 ELSE IF Effect(qb, qa) = "flip" THEN SAbs(qb) ELSE 0
 
 Closed(S, f, qa) ==     \* expected trade record when this fill ends the cycle
-  LET c == Append(S.cyc, [o |-> f.o, din |-> 0, dout |-> Dout(f.qb, qa), p |-> f.p, t |-> FillTime(f)])
+  LET c == Append(S.cyc, [o |-> f.o, din |-> 0, gq |-> 0, dout |-> Dout(f.qb, qa), p |-> f.p, t |-> FillTime(f)])
   IN [s |-> f.s, side |-> S.side, cyc |-> c, orders |-> Append(S.ords, f.o),
       over |-> S.over \/ (f.ro /\ f.q > SAbs(f.qb)), flip |-> IF S.flip # "" THEN S.flip ELSE IF Effect(f.qb, qa) = "flip" THEN FlipTag(f) ELSE ""]
 
@@ -78,13 +78,14 @@ TradeClauses(t, x) ==
       tag == IF x.flip # "" THEN x.flip ELSE IF x.over THEN ":oversize-ro" ELSE ""
   IN If(t.s = x.s, "trade-symbol" \o tag)
      \o If(t.type = x.side, "trade-type" \o tag)
-     \o If(t.q8 = 8 * QIn(c), "trade-qty" \o tag)
+     \* spot: the fee of a buy is taken from the base asset, the trade reports the quantity bought (gross), the position the net
+     \o If(t.q8 = 8 * (IF Hdr.spot THEN SeqSum([i \in DOMAIN c |-> c[i].gq]) ELSE QIn(c)), "trade-qty" \o tag)
      \o If(AvgAgrees(t.entry, VIn(c), QIn(c), Hdr.pden), "trade-entry-price" \o tag)
      \o If(AvgAgrees(t.exit, VOut(c), QOut(c), Hdr.pden), "trade-exit-price" \o tag)
      \o If(t.opened = c[1].t, "trade-opened-at" \o tag)
      \o If(t.closed = c[Len(c)].t, "trade-closed-at" \o tag)
      \o If(t.orders = x.orders, "trade-orders" \o tag)
-     \o If(t.pnl = CyclePnl(c, x.side, Hdr.fee_n, Hdr.fee_d), "trade-pnl" \o tag)
+     \o If(Hdr.spot \/ t.pnl = CyclePnl(c, x.side, Hdr.fee_n, Hdr.fee_d), "trade-pnl" \o tag)
 
 RECURSIVE AllTrades(_, _)
 AllTrades(ts, n) == IF n = 0 THEN <<>> ELSE AllTrades(ts, n - 1) \o TradeClauses(ts[n], exp[n])
@@ -96,6 +97,7 @@ EndClauses(e) ==
   IN If(Len(e.trades) = Len(exp), "trade-count" \o rtag)
      \o AllTrades(e.trades, Min2(Len(e.trades), Len(exp)))
      \o (IF nan THEN <<"trade-pnl-is-nan" \o rtag>>
+         ELSE IF Hdr.spot THEN If(~e.completed \/ \A s \in DOMAIN sym : sym[s].q = 0, "position-open-after-terminate")
          ELSE IF e.completed /\ e.has_wallet
          THEN If(\A s \in DOMAIN sym : sym[s].q = 0, "position-open-after-terminate")
               \o If(sum = e.w1 - e.w0, "sum-of-trade-pnl-vs-wallet" \o rtag)
@@ -140,11 +142,11 @@ Step ==
                     ELSE IF eff = "flip"
                     THEN [Sym0 EXCEPT !.st = "in", !.q = e.qa, !.side = PosSide(e.qa), !.flip = IF S.flip # "" THEN S.flip ELSE FlipTag(f), !.ords = <<f.o>>,
                                       !.win = [S.win EXCEPT !.last = IF f.cm >= 0 THEN f.cm ELSE @],
-                                      !.cyc = <<[o |-> f.o, din |-> SAbs(e.qa), dout |-> 0, p |-> f.p, t |-> FillTime(f)]>>]
+                                      !.cyc = <<[o |-> f.o, din |-> SAbs(e.qa), gq |-> SAbs(e.qa), dout |-> 0, p |-> f.p, t |-> FillTime(f)]>>]
                     ELSE [S EXCEPT !.st = IF e.qa = 0 THEN "flat" ELSE "in", !.q = e.qa, !.fill = NoFill, !.got = <<>>,
                                    !.side = IF eff = "open" THEN PosSide(e.qa) ELSE @,
                                    !.ords = Append(@, f.o), !.win.last = IF f.cm >= 0 THEN f.cm ELSE @,
-                                   !.cyc = Append(@, [o |-> f.o, din |-> Din(f.qb, e.qa), dout |-> Dout(f.qb, e.qa),
+                                   !.cyc = Append(@, [o |-> f.o, din |-> Din(f.qb, e.qa), gq |-> IF Din(f.qb, e.qa) > 0 THEN f.q ELSE 0, dout |-> Dout(f.qb, e.qa),
                                                       p |-> f.p, t |-> FillTime(f)])]]
        [] e.k = "end" ->
             /\ vs' = AddAll(vs, l, EndClauses(e))
